@@ -448,6 +448,13 @@ func (cc *connectUnaryClientConn) validateResponse(response *http.Response) *Err
 			// body: that, rather than the HTTP status, is why it failed.
 			return unmarshalErr
 		}
+		if ctxErr := cc.duplexCall.ctx.Err(); ctxErr != nil {
+			// The same, reported by the transport in a way we don't recognize: for
+			// a context canceled with a cause, net/http fails reads with the cause.
+			if contextErr, ok := asError(wrapIfContextError(ctxErr)); ok {
+				return contextErr
+			}
+		}
 		// We can't tell what the error is, but the metadata that came with it
 		// arrived in the HTTP headers all the same.
 		statusErr := NewError(
